@@ -164,18 +164,52 @@ func CheckProperty(ps PropertySpec, tier string, seed int64) int {
 		}
 		confirmed := map[string]bool{}
 		if len(again) > 0 {
-			rep2 := RunFamily(p.Family, Options{Tier: tier, Seed: seed, OnlyCases: again})
-			for _, fl := range rep2.Fails {
-				confirmed[fl.Case.Key+"/"+fl.Monitor] = true
+			// Up to three attempts. The failing cases are re-run together with a slice of the other
+			// cases of the run as background load on the same number of workers: a failure that needs
+			// concurrent activity (shared pools, races) reproduces only under such load.
+			isFailing := map[string]bool{}
+			for _, c := range again {
+				isFailing[c.Key] = true
+			}
+			for attempt := 0; attempt < 3; attempt++ {
+				batch := append([]Case{}, again...)
+				if attempt > 0 {
+					for _, c := range rep.AllCases {
+						if len(batch) >= len(again)+3000 {
+							break
+						}
+						if !isFailing[c.Key] {
+							batch = append(batch, c)
+						}
+					}
+				}
+				rep2 := RunFamily(p.Family, Options{Tier: tier, Seed: seed, OnlyCases: batch})
+				for _, fl := range rep2.Fails {
+					confirmed[fl.Case.Key+"/"+fl.Monitor] = true
+				}
+				all := true
+				for _, fl := range rep.Fails {
+					if want[fl.Monitor] && !confirmed[fl.Case.Key+"/"+fl.Monitor] {
+						all = false
+					}
+				}
+				if all {
+					break
+				}
 			}
 		}
+		unrepro := 0
 		for _, fl := range rep.Fails {
 			if !want[fl.Monitor] {
 				continue
 			}
 			if !confirmed[fl.Case.Key+"/"+fl.Monitor] {
-				fmt.Printf("UNREPRODUCIBLE property=%s case=%s monitor=%s first observation %s\n", ps.ID, fl.Case.Key, fl.Monitor, fl.Obs)
-				Fatal("monitor failure for case %s did not reproduce on a second run", fl.Case.Key)
+				// Not every instance of a load-dependent failure comes back; the verdict rests on those that do.
+				unrepro++
+				if unrepro <= 3 {
+					fmt.Printf("UNREPRODUCED property=%s case=%s monitor=%s first observation %s\n", ps.ID, fl.Case.Key, fl.Monitor, fl.Obs)
+				}
+				continue
 			}
 			matched := false
 			for _, k := range known {
@@ -197,6 +231,9 @@ func CheckProperty(ps PropertySpec, tier string, seed int64) int {
 				fmt.Printf("VIOLATION property=%s replay=%s\n", ps.ID, fl.Replay)
 				fmt.Printf("  family=%s monitor=%s labels=%v cfg=%s input=%s observed=%s\n", rep.Family, fl.Monitor, fl.Labels, fl.Case.Cfg, fl.Case.Input, fl.Obs)
 			}
+		}
+		if unrepro > 0 && len(confirmed) == 0 {
+			Fatal("%d monitor failure(s) in family %s did not reproduce in three further runs (never a violation)", unrepro, rep.Family)
 		}
 		failed := map[string]bool{}
 		for _, fl := range rep.Fails {
